@@ -23,7 +23,7 @@ ASSUMPTIONS = ["handlers removed by *another* party while a delivery that "
                "invoked in that delivery (statement leaves it open)",
                "handlers subscribed during a delivery are unconstrained for "
                "that delivery except 'not twice'"]
-REQUIRED = ["deliveries", "invocations", "reentrant_sub", "reentrant_sub_prio",
+REQUIRED = ["histories_with_very_many_subscriptions", "deliveries", "invocations", "reentrant_sub", "reentrant_sub_prio",
             "reentrant_unsub", "reentrant_raise", "halts", "once_consumed",
             "handler_exceptions", "noerrors_swallowed", "undeclared_rejected",
             "sources_declaring_at_run_time_only",
@@ -959,6 +959,26 @@ def gen_random (rng, n, maxlen):
     yield case
 
 
+def gen_mass (rng, sizes):
+  """Very many subscriptions on one source: hundreds to thousands of handlers
+  of mixed priority, some one-shot, some halting or unsubscribing themselves
+  when called; deliveries, bulk removal by every form, deliveries again."""
+  for n in sizes:
+    ops = []
+    for i in range(n):
+      script = rand_script(rng, 0) if rng.random() < 0.1 else []
+      ops.append(["sub", i % 2, rng.choice(PRIOS), rng.random() < 0.1, False,
+                  rng.choice(["addListener", "addListener", "byname", "kwprio"]), script])
+    ops += [["raise", 0, "instance", False], ["raise", 1, "class", True]]
+    for _ in range(min(n // 2, 40)):
+      ops.append(["unsub", rng.randrange(n), rng.choice(["handler", "eid", "eid_type",
+                                                       "pair", "handler_type"])])
+    ops += [["raise", 0, "instance", True], ["raise", 1, "instance", False],
+            ["sub", 0, rng.choice(PRIOS), False, False, "addListener", []],
+            ["raise", 0, "instance", False]]
+    yield dict(ops=ops, mass=n)
+
+
 def gen_weak (rng, n):
   for _ in range(n):
     ops = []
@@ -980,6 +1000,7 @@ def plan (tier, seed):
     sp += [dict(mode="rand", n=5000, maxlen=16, sub=i) for i in range(10)]
     sp += [dict(mode="weak", n=400)]
     sp += [dict(mode="dups")]
+    sp += [dict(mode="mass", sizes=[33, 70, 130, 300]), dict(mode="mass", sizes=[1100])]
     return sp
   sp = [dict(mode="exh", nsubs=1, shard=0, nshards=1)]
   sp += [dict(mode="exh", nsubs=2, shard=i, nshards=2) for i in range(2)]
@@ -987,6 +1008,8 @@ def plan (tier, seed):
   sp += [dict(mode="rand", n=60000, maxlen=40, sub=i) for i in range(32)]
   sp += [dict(mode="weak", n=5000)]
   sp += [dict(mode="dups")]
+  sp += [dict(mode="mass", sizes=[17 + i, 65 + i, 257 + i, 1025 + i], sub=i) for i in range(8)]
+  sp += [dict(mode="mass", sizes=[4100 + i], sub=10 + i) for i in range(4)]
   return sp
 
 
@@ -1000,12 +1023,17 @@ def run (spec, rep):
   elif spec["mode"] == "dups":
     import itertools
     g = itertools.chain(gen_dups(), gen_dups_once())
+  elif spec["mode"] == "mass":
+    g = gen_mass(rng, spec["sizes"])
   else:
     g = gen_weak(rng, spec["n"])
   first = True
   for case in g:
+    if case.get("mass"):
+      rep.count("histories_with_very_many_subscriptions")
+      rep.maxi("subscriptions_on_one_source", case["mass"])
     do_case(case, rep)
-    if first: rep.sample(case); first = False
+    if first and not case.get("mass"): rep.sample(case); first = False
 
 
 def replay (witness, rep):
